@@ -23,7 +23,7 @@ NAME = "io"
 PROPS = ("C20",)
 
 ENCODINGS = ["utf-8", "latin-1", "gbk", "utf-16"]
-RETURNS = ["none", "empty_list", "empty_tuple", "same", "new", "list2", "tuple3", "gen", "int", "obj", "str", "list_bad", "list1"]
+RETURNS = ["none", "empty_list", "empty_tuple", "same", "new", "list2", "tuple3", "gen", "int", "obj", "str", "list_bad", "list1", "repeat2"]
 INVALID = {"int", "obj", "str", "list_bad"}
 BLOCK_CLASSES = ["Entry", "String", "Preamble", "ExplicitComment", "ImplicitComment", "ParsingFailedBlock", "DuplicateBlockKeyBlock", "DuplicateFieldKeyBlock"]
 
@@ -128,6 +128,9 @@ class Protocol(mwbase.BlockMiddleware):
             exp = [block]
         elif kind == "list2":
             r = [block, self._new()]
+            exp = list(r)
+        elif kind == "repeat2":
+            r = [block, block]            # the same block twice: both occurrences go into the output, in place
             exp = list(r)
         elif kind == "tuple3":
             r = (self._new(), block, self._new())
@@ -266,8 +269,8 @@ def generate(rng, tier, prop):
                         "args": _args(rng), "raw_faults": _raw_faults(rng, False)})
         elif r < 0.84:
             tgt = rng.choice([{"path": "out.bib"}, {"path": "out.bib"}, {"fileobj": "text"}, {"fileobj": "recording"}])
-            if "path" in tgt and rng.random() < 0.4:
-                ops.append({"op": "plant", "path": "out.bib"})
+            if "path" in tgt and rng.random() < 0.45:
+                ops.append({"op": "plant", "path": "out.bib", "how": rng.choice(["longer", "longer", "binary", "utf16", "crlf", "crlf"])})
             ops.append({"op": "write_file", "target": tgt, "lib": rng.randrange(8), "args": _args(rng),
                         "fmt": rng.choice([None, 0, 1]), "raw_faults": _raw_faults(rng, True)})
         else:
@@ -406,9 +409,19 @@ def execute(run, props):
                 continue
 
             if kind == "plant":
-                disk.put(op["path"], b"% pre-existing longer file\n" * 300)
-                res.probes["preexisting_longer_file"] += 1
-                res.event(step, "plant", "", "")
+                how = op.get("how", "longer")
+                if how == "binary":
+                    disk.put(op["path"], bytes(range(128, 256)) * 20)        # not decodable as UTF-8 / gbk
+                elif how == "utf16":
+                    disk.put(op["path"], "% an earlier export in another encoding\n".encode("utf-16") * 30)
+                elif how == "crlf" and op["path"] in disk.files:
+                    old_ = disk.get(op["path"])
+                    disk.put(op["path"], old_.replace(b"\r\n", b"\n").replace(b"\n", b"\r\n") if cfg["platform_newline"] == "\n"
+                             else old_.replace(b"\r\n", b"\n"))
+                else:
+                    disk.put(op["path"], b"% pre-existing longer file\n" * 300)
+                res.probes["preexisting_longer_file" if how == "longer" else "preexisting_file_" + how] += 1
+                res.event(step, "plant", how, "")
                 continue
 
             if kind in ("parse_string", "parse_file"):
@@ -572,6 +585,7 @@ def execute(run, props):
                 both = a["full"] is not None and a["add"] is not None
                 lib = libs[op["lib"] % len(libs)]
                 twin = copy.deepcopy(lib)       # stacks may contain in-place middleware
+                held_before = [id(b) for b in lib.blocks]
                 f = None if op["fmt"] is None else fmts[op["fmt"] % len(fmts)]
 
                 def explicit_text():
@@ -596,6 +610,12 @@ def execute(run, props):
                               f"{label} differs from the requested stack followed by the writer: {got[1][:200]!r} vs {want[1][:200]!r}")
                             return res
                         res.nontrivial = True
+                    if [id(b) for b in lib.blocks] != held_before:
+                        # no middleware of this universe may change WHICH blocks the caller's library holds (a block
+                        # middleware's results go into a new library; in-place only ever means the blocks themselves)
+                        V("composition", "write_string/callers-block-list-changed", step,
+                          f"{label} changed which blocks the caller's library holds: {len(held_before)} -> {len(lib.blocks)} blocks")
+                        return res
                     if not both and fingerprint(lib) != fingerprint(twin):
                         # whatever the stack did to the caller's library (in-place middleware, or a stack that
                         # raised half-way) is what the explicit composition does to an identical library
@@ -815,6 +835,16 @@ def execute(run, props):
                     V("protocol", "splice/" + "+".join(used), step,
                       f"output blocks are not the in-order splice of the per-block results: got {[type(b).__name__ for b in out.blocks]}, "
                       f"expected {[type(b).__name__ for b in expected]}")
+                    return res
+                # the output of a stack is a Library like any other: its views must be consistent with its blocks
+                from .lib import view_invariants
+                try:
+                    bad_views = view_invariants(out)
+                except Exception as e:  # noqa
+                    bad_views = [("unreadable", str(e))]
+                if bad_views:
+                    V("protocol", "output-library-inconsistent/" + bad_views[0][0], step,
+                      f"the library a block middleware's results were put into is inconsistent: {bad_views[0][1]}")
                     return res
                 if len(probe.log) != len(src.blocks) and via != "parse_stack":
                     V("protocol", "not-every-block-visited", step, f"transform_block was called {len(probe.log)} times for {len(src.blocks)} blocks")
